@@ -54,7 +54,7 @@ func c04(r *hx.Run) {
 	all := opIDs(pool, func(*fx.PoolOp) bool { return true })
 	legit := opIDs(pool, isLegit)
 	// R01~w / R01~h leave an empty document with advanced commitments: a deactivate must take effect in that state too
-	base := []string{"U01", "U12", "U01b", "R01", "R01b", "R12", "D0", "D1", "D1b", "D2", "V01", "D0i", "D0~w", "R01~h", "R01~w"}
+	base := []string{"U01", "U12", "U01b", "R01", "R01b", "R12", "D0", "D1", "D1b", "D2", "V01", "R01~a", "D0~w", "R01~h", "R01~w"}
 	fixedC := []fx.Placed{{Op: pool.Get("C"), Time: 1, Num: 0, Published: true}}
 	twoVer := hostileSecondVersion(v, 2)
 	e := &histEnum{pool: pool, alpha: base, coords: []Coord{{2, 0}, {2, 1}, {3, 0}}, depth: 3, pubModes: "p", fixed: fixedC}
